@@ -1,0 +1,47 @@
+//go:build verif
+
+package hermes
+
+// Verification hooks (build tag "verif"): seams for the deterministic
+// simulator in /verif. Verif is set once before any run starts; when nil every
+// hook returns immediately.
+
+// VerifHooks are the callbacks a simulator may install.
+type VerifHooks struct {
+	// Yield is a scheduling point: the calling run may be parked here.
+	Yield func(point, logID, detail string)
+	// PoolResult reports the bytes FilePool.Get is about to return.
+	PoolResult func(path string, data []byte)
+	// Substeps may shorten the sub-step length of a day (never lengthen it).
+	Substeps func(g *GlobalVarsMain, zeit int, wdt float64) float64
+	// Probe gives read access to the model state at sub-step resolution.
+	Probe func(point string, zeit, subd int, wdt float64, g *GlobalVarsMain, w *WaterSharedVars, n *NitroSharedVars, c *CropSharedVars)
+}
+
+// Verif is the installed hook set (nil = no simulator attached).
+var Verif *VerifHooks
+
+func verifYield(point, logID, detail string) {
+	if h := Verif; h != nil && h.Yield != nil {
+		h.Yield(point, logID, detail)
+	}
+}
+
+func verifPoolResult(path string, data []byte) {
+	if h := Verif; h != nil && h.PoolResult != nil {
+		h.PoolResult(path, data)
+	}
+}
+
+func verifSubsteps(g *GlobalVarsMain, zeit int, wdt float64) float64 {
+	if h := Verif; h != nil && h.Substeps != nil {
+		return h.Substeps(g, zeit, wdt)
+	}
+	return wdt
+}
+
+func verifProbe(point string, zeit, subd int, wdt float64, g *GlobalVarsMain, w *WaterSharedVars, n *NitroSharedVars, c *CropSharedVars) {
+	if h := Verif; h != nil && h.Probe != nil {
+		h.Probe(point, zeit, subd, wdt, g, w, n, c)
+	}
+}
